@@ -15,6 +15,7 @@ Behaviours of a target:
 """
 import concurrent.futures
 import os
+import re
 import socket
 import subprocess
 import threading
@@ -125,9 +126,23 @@ def build_shim(ctx):
 def make_helper(ctx):
     helper = os.path.join(ctx.scratch, "c07exec.sh")
     with open(helper, "w") as f:
-        f.write("#!/bin/sh\ncase $1 in\n c*) while :; do echo x-$1; sleep 0.2; done;;\n *) echo out-$1;;\nesac\n")
+        f.write("#!/bin/sh\ncase $1 in\n c*) while :; do echo x-$1; sleep 0.2; done;;\n"
+                " i*) trap '' TERM; echo x-$1; sleep %d;;\n z*) exec <&- >&- 2>&-; sleep %d;;\n"
+                " *) echo out-$1;;\nesac\n" % (IMMORTAL_LIFE, IMMORTAL_LIFE))
     os.chmod(helper, 0o755)
     return helper
+
+
+# a command that ignores SIGTERM (i*) resp. closes its streams and runs on (z*): it lives this long, far beyond
+# anything the timeouts allow, and then goes away by itself (nothing is left behind on the machine)
+IMMORTAL_LIFE = 25
+TEARDOWN_KINDS = ("immortal", "closer")
+
+
+def teardown_cases():
+    """the two witnesses of F07-TEARDOWN-WAIT on the real exec transport, next to a healthy host"""
+    return [{"id": 900, "token": "tokimm0900", "ct": 1, "ut": 1, "fanout": 2, "hosts": [("e0", "exec"), ("i0", "immortal")]},
+            {"id": 901, "token": "tokclo0901", "ct": 1, "ut": 1, "fanout": 2, "hosts": [("e0", "exec"), ("z0", "closer")]}]
 
 
 def gen_case(rng, idx, thorough, must=None):
@@ -169,7 +184,7 @@ def expected_wall(case, refuse=None):
             per = max(per, ct + WDOG_POLL)
         elif kd == "refuse":
             per = max(per, refuse if refuse is not None else ct + WDOG_POLL)
-        elif kd in ("talkhang", "chatty"):
+        elif kd in ("talkhang", "chatty") + TEARDOWN_KINDS:
             per = max(per, ut + WDOG_POLL + 0.5)
     rounds = 1 if case["fanout"] >= len(case["hosts"]) else 2
     return per * rounds
@@ -178,9 +193,11 @@ def expected_wall(case, refuse=None):
 def run_case(exe, shim, helper, case, scratch, hard_timeout=None):
     if hard_timeout is None:
         hard_timeout = expected_wall(case, refuse=REFUSE_OBSERVED) + 20
+        if any(kd in TEARDOWN_KINDS for _, kd in case["hosts"]):
+            hard_timeout = expected_wall(case) + 4.0 + 1.0     # the bound, the slack, and 1 s more
     script = ";".join("%s=%s" % (a, "hang" if kd == "hang" else "refuse:0") for a, kd in case["hosts"]
                       if kd in ("hang", "refuse"))
-    words = ",".join(("exec:" + a) if kd in ("exec", "chatty") else a for a, kd in case["hosts"])
+    words = ",".join(("exec:" + a) if kd in ("exec", "chatty") + TEARDOWN_KINDS else a for a, kd in case["hosts"])
     argv = [exe, "-R", "rsh", "-t", str(case["ct"]), "-f", str(case["fanout"])]
     if case["ut"] > 0:
         argv += ["-u", str(case["ut"])]
@@ -204,15 +221,26 @@ def run_case(exe, shim, helper, case, scratch, hard_timeout=None):
 # connect timeout ends the retries (repaired xrcmd.c: an interrupted back-off sleep is the expired timeout)
 REPORT = {"hang": (": connect: timed out",), "mute": (": read: protocol failure: timed out",),
           "refuse": (": connect: Connection refused", ": connect: timed out"), "talkhang": (": command timeout",),
-          "chatty": (": command timeout",)}
+          "chatty": (": command timeout",), "immortal": (": command timeout",)}
 
 
 def judge(case, r, peer, slack):
     """-> (functional offenders, timing offenders) as lists of (signature, what)"""
     fun, tim = [], []
     if r["rc"] is None:
-        fun.append(("real:no-termination", "pdsh -R rsh did not end within the hard limit although every hang is "
-                    "covered by -t %d%s" % (case["ct"], " -u %d" % case["ut"] if case["ut"] else "")))
+        waiters = [(a, kd) for a, kd in case["hosts"] if kd in TEARDOWN_KINDS]
+        if waiters and case["ut"] > 0:
+            fun.append(("real:no-return:teardown-waits-for-command",
+                        "pdsh -u %d still runs after %.1f s (the timeouts plus the watchdog period allow %.1f s): %s; "
+                        "the command timeout does not apply to the teardown (exec_destroy -> pipecmd_wait -> "
+                        "waitpid without a bound); stderr so far %r" %
+                        (case["ut"], r["wall"], expected_wall(case), "; ".join(
+                            "%s %s" % (a, "ignores the SIGTERM it is sent at the command timeout" if kd == "immortal"
+                                       else "closed its streams and runs on (no signal is ever sent to it)")
+                            for a, kd in waiters), r["stderr"][-200:])))
+        else:
+            fun.append(("real:no-termination", "pdsh -R rsh did not end within the hard limit although every hang is "
+                        "covered by -t %d%s" % (case["ct"], " -u %d" % case["ut"] if case["ut"] else "")))
         return fun, tim
     outl = r["stdout"].splitlines()
     errl = r["stderr"].splitlines()
@@ -228,13 +256,17 @@ def judge(case, r, peer, slack):
             nreq = sum(1 for x, _ in peer.requests(case["token"]) if x == a)
             if nreq != 1:
                 fun.append(("real:healthy-rsh", "healthy rsh host %s received the command %d times" % (a, nreq)))
+        elif kd == "closer":
+            pass                       # says nothing; what matters is that pdsh does not wait for it
         else:
             if kd == "talkhang" and "%s: first-%s" % (a, a) not in outl:
                 fun.append(("real:output-lost", "%s: the line sent before the hang was not relayed" % a))
             if kd == "chatty" and "%s: x-%s" % (a, a) not in outl:
                 fun.append(("real:output-lost", "%s: nothing of what it printed before the deadline was relayed" % a))
             want = " | ".join(a + w for w in REPORT[kd])
-            if not any(l.startswith("pdsh@") and any(l.endswith(a + w) for w in REPORT[kd]) for l in errl):
+            # the property: reported on stderr under its own name -- any line with pdsh's prefix that names the
+            # host; the wording (REPORT = today's texts, for the message below only) is not part of it
+            if not any(re.match(r"^pdsh@[^:]*: %s: \S" % re.escape(a), l) for l in errl):
                 fun.append(("real:not-reported:" + kd, "%s (%s): no line `...%s` on stderr; stderr was %r" %
                             (a, kd, want, r["stderr"][-400:])))
     bound = expected_wall(case)
@@ -296,7 +328,8 @@ def run_part(ctx, cov, quick):
         exe = os.path.join(repo, "src/pdsh/pdsh")
         n = 8 if quick else 40
         fixed = ["hang", "mute", "refuse", "talkhang", "chatty", "hang"]
-        cases = [gen_case(ctx.rng, i, not quick, must=fixed[i] if i < len(fixed) else None) for i in range(n)]
+        cases = teardown_cases() + \
+            [gen_case(ctx.rng, i, not quick, must=fixed[i] if i < len(fixed) else None) for i in range(n)]
         slack = 4.0
 
         def one(c):
